@@ -84,15 +84,17 @@ Qed.
 
 (* per-run certificate: if the boolean check of the model's final potentials succeeds on M, the
    returned assignment is optimal *)
-Lemma solve_cert_optimal M mz : has_cols M = true -> solve_cert M mz = true ->
+Lemma solve_cert_optimal M mz : solve_cert M mz = true ->
   exists a, solve M mz = Some (a, cost_of M a) /\ matching_spec M a /\ optimal_spec M mz a.
 Proof.
-  intros Hc Hcert. destruct M as [|[|x r] rest]; [| discriminate |].
+  intros Hcert. destruct M as [|[|x r] rest].
   - exists []. split; [reflexivity|]. split; [constructor; simpl; constructor|].
     intros b Hb. destruct b as [|y b]; [destruct mz; simpl; lia|].
     destruct Hb as [Hl _ _ _]. simpl in Hl. discriminate.
+  - destruct (solve_shape ([] :: rest) mz) as (a & E & Hm). exists a. split; [exact E|]. split; [exact Hm|].
+    intros b Hb. rewrite (zero_cols_cost ([] :: rest) a eq_refl Hm), (zero_cols_cost ([] :: rest) b eq_refl Hb). destruct mz; lia.
   - set (M := (x :: r) :: rest) in *.
-    unfold solve_cert, solve_state in Hcert. unfold solve. fold M.
+    unfold solve_cert, solve_state in Hcert. unfold solve, solve_gen. fold M.
     destruct (core_ok (padded M mz) (Nat.max (n_rows M) (n_cols M))) as ([[[u v] p] way] & E & [Hh _]).
     rewrite E in *. apply cert_check_sound in Hcert. destruct Hcert as [Hf Ht].
     destruct (extract_matching _ p (n_rows M) (n_cols M) eq_refl Hh) as (H1 & H2 & H3 & H4).
